@@ -211,6 +211,7 @@ func GenChain(c Chooser, d int, o *GenOpts) *Value {
 	leafT := []byte{TI32, TBool, TString, TI64}[c.Choose(4)]
 	var cur *Value = GenScalar(c, leafT, &GenOpts{})
 	kind := c.Choose(6) // 0: mixed per level, else fixed kind for the whole chain
+	bushy := c.Choose(3) == 0
 	for i := 0; i < d; i++ {
 		k := kind
 		if k == 0 {
@@ -219,7 +220,20 @@ func GenChain(c Chooser, d int, o *GenOpts) *Value {
 		var w *Value
 		switch k {
 		case 1:
-			w = &Value{T: TStruct, Fields: []Field{{ID: int16(i + 1), V: cur}}}
+			w = &Value{T: TStruct}
+			// siblings of the chain child: empty or tiny containers and scalars before and after
+			// it (breadth must not cost nesting budget)
+			nb := 0
+			if bushy {
+				nb = c.Choose(3)
+			}
+			for j := 0; j < nb; j++ {
+				w.Fields = append(w.Fields, Field{ID: int16(100 + j), V: smallSibling(c)})
+			}
+			w.Fields = append(w.Fields, Field{ID: int16(i + 1), V: cur})
+			if bushy && c.Choose(3) == 0 {
+				w.Fields = append(w.Fields, Field{ID: int16(200), V: smallSibling(c)})
+			}
 		case 2:
 			w = &Value{T: TList, ET: cur.T, Elems: []*Value{cur}}
 		case 3:
@@ -232,4 +246,44 @@ func GenChain(c Chooser, d int, o *GenOpts) *Value {
 		cur = w
 	}
 	return cur
+}
+
+func smallSibling(c Chooser) *Value {
+	switch c.Choose(5) {
+	case 0:
+		return &Value{T: TList, ET: TI32}
+	case 1:
+		return &Value{T: TMap, KT: TString, VT: TI64}
+	case 2:
+		return &Value{T: TStruct}
+	case 3:
+		return &Value{T: TSet, ET: TString, Elems: []*Value{StringV([]byte("s"))}}
+	default:
+		return I32V(int32(c.Choose(100)))
+	}
+}
+
+// GenWide builds a shallow value with many container-typed siblings: a struct with n
+// container fields, or a list/map of n small containers.
+func GenWide(c Chooser, n int) *Value {
+	switch c.Choose(3) {
+	case 0:
+		v := &Value{T: TStruct}
+		for i := 0; i < n; i++ {
+			v.Fields = append(v.Fields, Field{ID: int16(i + 1), V: smallSibling(c)})
+		}
+		return v
+	case 1:
+		v := &Value{T: TList, ET: TStruct}
+		for i := 0; i < n; i++ {
+			v.Elems = append(v.Elems, &Value{T: TStruct, Fields: []Field{{ID: 1, V: &Value{T: TList, ET: TByte}}}})
+		}
+		return v
+	default:
+		v := &Value{T: TMap, KT: TI32, VT: TList}
+		for i := 0; i < n; i++ {
+			v.Elems = append(v.Elems, I32V(int32(i)), &Value{T: TList, ET: TI16, Elems: []*Value{I16V(int16(i))}})
+		}
+		return v
+	}
 }
